@@ -402,7 +402,12 @@ def _index(case, ctx, g):
         ref = torch.stack([Cb[Bs[r, 0]][Ps[r]][:, Ps[r]] for r in range(Bs.shape[0])], 0).reshape(*Mref.shape[:-1], k, k)
     if ctx.close("index_covariance", got_cov, ref, "direct", cls="index:cov", kinds=kinds) and case["seed"] % 3 == 0:
         # a second pass with the parent primed (cached factorisations) before it is indexed
-        d2 = MVN(mean, make_cov(case["rep"], util.gen(case["seed"]), b, N)[0])
+        if case["rep"] == "dense":
+            from linear_operator.operators import DenseLinearOperator
+
+            d2 = MVN(mean, DenseLinearOperator(C.clone()))  # the same covariance held lazily (caches live on lazy parents)
+        else:
+            d2 = MVN(mean, make_cov(case["rep"], util.gen(case["seed"]), b, N)[0])
         how = ["scale_tril", "log_prob_chol", "rsample"][(case["seed"] // 3) % 3]
         try:
             _prime(d2, how)
